@@ -43,3 +43,14 @@ Theorem C10_steady_floor_step : forall v lo hi, (0 <= lo -> lo + 1 <= hi -> hi <
   Controller.steady v lo hi <= Controller.steady v (lo + 1) hi <= Controller.steady v lo hi + 1)%Z.
 Proof. exact CtrlLinksC10Progress.steady_floor_step. Qed.
 Print Assumptions C10_steady_floor_step.
+
+(* ---- third C10 observer (Drv/CtrlC10Keep.v): a raise is never handed back ---- *)
+From F2G Require Proofs.CtrlLinksC10Keep Drv.CtrlC10Keep.
+
+Theorem C10_keep_model_passes : forall c, base_wf c -> CtrlC10Keep.holdsb (with_obs c (model_obs c)) = true.
+Proof. exact CtrlLinksC10Keep.C10_keep_model_passes. Qed.
+Print Assumptions C10_keep_model_passes.
+
+Theorem C10_keep_no_false_alarm : forall c, mismatch c = false -> base_wf c -> CtrlC10Keep.holdsb c = true.
+Proof. exact CtrlLinksC10Keep.C10_keep_no_false_alarm. Qed.
+Print Assumptions C10_keep_no_false_alarm.
